@@ -34,6 +34,7 @@ def run(ctx):
     R.rule_R4(ctx, typer, funcs)
     R.rule_R6_string_compare(ctx, typer, funcs)
     R.rule_R7_parts_unmodified(ctx, typer)
+    R.rule_R8_split_unfiltered(ctx, typer)
     R.rule_G2_all_caches(ctx, typer)
     ctx.floor("R6", 2)
     ctx.floor("R1", 2)
